@@ -17,7 +17,11 @@ RULE = ("K: (a) OnOffSwitch.calculate_on_list / calculate_time_step_to_on_arr_id
         "sources (inactive step => bit-identical fields), run_fdtd detector state = the always-on detector's records "
         "at the distinct active steps in chronological order (exact; every quick run has detectors with the unsorted list "
         "[5,1,3] and the repeating list [2,2,4,9,4]), zero fields before the first active source step, "
-        "Source.adjust_time_step_by_on_off vs the model. non-trivial = a schedule with at least one active and one "
+        "Source.adjust_time_step_by_on_off vs the model; every detector kind that stores per-step records (EnergyDetector "
+        "full / reduce_volume / as_slices by mean and by position, PoyntingFluxDetector reduce / full / keep_all, "
+        "ClosedSurfacePoyntingFluxDetector, FieldDetector reduce / exact) with a schedule whose slot differs from the time step, "
+        "next to an always-on twin: record j == twin's record at the j-th active step for every state key (all kinds in the "
+        "seeded scene of every run). non-trivial = a schedule with at least one active and one "
         "inactive step, or an error kind. The documented window rule is evaluated independently in Python "
         "(oracle_on_list) on every case.")
 
@@ -327,7 +331,29 @@ def nontrivial_key(c, reply):
 RES = 50e-9
 
 
-def build_scene(T, sw_e, sw_h, det_switches, with_sources=True, n=4):
+FULL = [(0, 4), (0, 4), (0, 4)]
+# every detector kind that stores one record per active step: (class name, options, region)
+EXTRA_KINDS = {
+    "energy_slices_mean": ("EnergyDetector", dict(as_slices=True), FULL),
+    "energy_slices_pos": ("EnergyDetector", dict(as_slices=True, x_slice=1.3 * RES, y_slice=-0.6 * RES, z_slice=0.2 * RES), FULL),
+    "energy_reduce": ("EnergyDetector", dict(reduce_volume=True), FULL),
+    "energy_full": ("EnergyDetector", dict(), [(1, 4), (0, 2), (0, 4)]),
+    "poynting_reduce": ("PoyntingFluxDetector", dict(direction="+", reduce_volume=True), [(0, 4), (0, 4), (1, 2)]),
+    "poynting_full": ("PoyntingFluxDetector", dict(direction="-", reduce_volume=False), [(0, 4), (2, 3), (0, 4)]),
+    "poynting_keep_all": ("PoyntingFluxDetector", dict(direction="+", reduce_volume=True, keep_all_components=True),
+                          [(3, 4), (0, 4), (0, 4)]),
+    "closed_poynting": ("ClosedSurfacePoyntingFluxDetector", dict(orientation="inward"), [(0, 3), (1, 4), (1, 3)]),
+    "field_reduce": ("FieldDetector", dict(reduce_volume=True, components=("Ex", "Hy")), FULL),
+    "field_exact": ("FieldDetector", dict(exact_interpolation=True), [(1, 3), (1, 3), (0, 4)]),
+}
+
+
+def region_constraints(obj, region):
+    return [obj.set_grid_coordinates(axes=(0, 1, 2), sides=("-", "-", "-"), coordinates=tuple(r[0] for r in region)),
+            obj.set_grid_coordinates(axes=(0, 1, 2), sides=("+", "+", "+"), coordinates=tuple(r[1] for r in region))]
+
+
+def build_scene(T, sw_e, sw_h, det_switches, with_sources=True, n=4, extras=()):
     """4^3 periodic box, electric + magnetic dipole (Gaussian pulse: non-zero at every time), FieldDetectors"""
     m = M()
     fdtdx, jnp, jax = m["fdtdx"], m["jnp"], m["jax"]
@@ -356,6 +382,13 @@ def build_scene(T, sw_e, sw_h, det_switches, with_sources=True, n=4):
                                 reduce_volume=red, components=("Ez", "Hx") if red else ("Ex", "Ey", "Ez", "Hx", "Hy", "Hz"))
         objs.append(d)
         cons += d.same_position_and_size(vol)
+    for i, (kind, sw) in enumerate(extras):
+        cls, opts, region = EXTRA_KINDS[kind]
+        opts = dict(dict(dtype=jnp.float64, exact_interpolation=False, plot=False), **opts)
+        for name, swx in ((f"x{i}", sw), (f"y{i}", None)):      # scheduled detector and its always-on twin
+            d = getattr(fdtdx, cls)(name=name, **opts) if swx is None else getattr(fdtdx, cls)(name=name, switch=swx, **opts)
+            objs.append(d)
+            cons += region_constraints(d, region)
     key = jax.random.PRNGKey(0)
     o, a, p, c, _ = fdtdx.place_objects(object_list=objs, config=cfg, constraints=cons, key=key)
     a, o, _ = fdtdx.apply_params(a, o, p, key)
@@ -374,8 +407,10 @@ def run_scene_case(ctx, sc, check_model=True):
     m = M()
     jax, jnp, fdtdx, upd = m["jax"], m["jnp"], m["fdtdx"], m["upd"]
     T = sc["T"]
+    extras = sc.get("extras", [])
     o, a, cfg, _ = build_scene(T, switch_of(sc["src_e"]), switch_of(sc["src_h"]),
-                               [(switch_of(c), r) for c, r in sc["dets"]])
+                               [(switch_of(c), r) for c, r in sc["dets"]],
+                               extras=[(k, switch_of(c)) for k, c in extras])
     o0, a0, cfg0, _ = build_scene(T, None, None, [(switch_of(c), r) for c, r in sc["dets"]], with_sources=False)
     assert cfg.time_steps_total == T, (cfg.time_steps_total, T)
     dt = float(cfg.time_step_duration)
@@ -413,6 +448,7 @@ def run_scene_case(ctx, sc, check_model=True):
             if d[t] and not exp[src][t] and detail is None:
                 detail = (f"{name} at inactive step {t} of source {src} changed the field "
                           f"(schedule {bits(exp[src])}, changed at {bits(d)})")
+    extra_checks = []
     # ---- whole run: detector records
     try:
         _, arr = fdtdx.run_fdtd(arrays=a, objects=o, config=cfg, key=jax.random.PRNGKey(1), show_progress=False)
@@ -420,8 +456,26 @@ def run_scene_case(ctx, sc, check_model=True):
         ctx.impl_property_evals += 1
         return (f"run_fdtd raised {type(e).__name__}: {str(e)[:160]} although every schedule of the scene is valid "
                 f"(detector schedules: {[bits(oracle_on_list(dict(c, T=T, dt=dt))) for c, _ in sc['dets']]})")
-    st = {k: np.asarray(v["fields"]) for k, v in arr.detector_states.items()}
+    st = {k: np.asarray(v["fields"]) for k, v in arr.detector_states.items() if "fields" in v}
     full = st["all"]
+    # ---- every per-step detector kind next to its always-on twin: record j == twin's record at the j-th active step
+    for i, (kind, c) in enumerate(extras):
+        e = oracle_on_list(dict(c, T=T, dt=dt))
+        steps = [t for t in range(T) if e[t]]
+        sx, sy = arr.detector_states[f"x{i}"], arr.detector_states[f"y{i}"]
+        ctx.impl_property_evals += 1
+        for key in sorted(sy):
+            got, twin = np.asarray(sx[key]), np.asarray(sy[key])
+            ref = twin[steps] if steps else twin[:0]
+            if detail is None and twin.shape[0] != T:
+                detail = f"always-on {kind} twin holds {twin.shape[0]} records for {T} steps"
+            if detail is None and (got.shape != ref.shape or not np.array_equal(got, ref)):
+                slot = "-" if got.shape != ref.shape else int(np.argmax(np.any((got != ref).reshape(got.shape[0], -1), axis=1)))
+                detail = (f"{kind} detector x{i}, key '{key}' (schedule {bits(e)}): holds {got.shape[0]} records; record j must "
+                          f"equal the always-on twin's record at the j-th active step {steps}; first differing slot {slot}")
+        if check_model:
+            d_obj = o[f"x{i}"]
+            extra_checks.append((i, kind, dict(c, T=T, dt=dt), d_obj))
     first_on = min([t for nm in ("src_e", "src_h") for t in range(T) if exp[nm][t]] + [T])
     ctx.impl_property_evals += 1
     if detail is None and np.any(full[:first_on] != 0):
@@ -469,6 +523,16 @@ def run_scene_case(ctx, sc, check_model=True):
                                  (parts[0], parts[1], n))
             else:
                 ctx.mismatch("detector-state", {"scene": sc, "det": i}, {"model": rep, "impl": "placed and ran"})
+        for (i, kind, c, d_obj), rep in zip(extra_checks, ctx.driver.ask_many([line_of(c) for (_, _, c, _) in extra_checks]) if extra_checks else []):
+            if not rep.startswith("ok"):
+                ctx.mismatch("extra-on-arrays", {"scene": sc, "extra": i}, {"model": rep})
+                continue
+            parts = [x.strip() for x in rep[3:].split("|")]
+            ctx.expect_equal("extra-on-arrays", {"scene": sc, "extra": i, "kind": kind},
+                             (bits(np.asarray(d_obj._is_on_at_time_step_arr).tolist()),
+                              " ".join(str(int(x)) for x in np.asarray(d_obj._time_step_to_arr_idx)),
+                              int(d_obj.num_time_steps_recorded)),
+                             (parts[0], parts[1], int(parts[2])))
         adj_req = []
         for name, rep in zip(names, reps[len(det_checks):]):
             src = fns[name][2]
@@ -496,8 +560,19 @@ def random_scene(rng, T, dt):
             return mk_case(T, dt)
         c = random_switch_case(rng, T, dt, per=per, valid_only=True)
         return c
+    kinds = sorted(EXTRA_KINDS)
     return {"T": T, "src_e": sw(), "src_h": sw(), "dets": [[sw(), False], [sw(), rng.chance(0.5)]],
-            "seed": rng.np_seed(), "only": rng.choice(["forward", "reverse"])}
+            "seed": rng.np_seed(), "only": rng.choice(["forward", "reverse"]),
+            "extras": [[rng.choice(kinds), sw(False)] for _ in range(2)]}
+
+
+def seed_extras(T, dt):
+    """every per-step detector kind with a schedule whose record slot differs from the time step"""
+    sws = [mk_case(T, dt, st=2 * dt, interval=2), mk_case(T, dt, fixed=[3, 7, 8]), mk_case(T, dt, st=1.5 * dt, interval=3),
+           mk_case(T, dt, fixed=[6, 2]), mk_case(T, dt, st=3 * dt, et=8.2 * dt, interval=2), mk_case(T, dt, interval=4),
+           mk_case(T, dt, fixed=[9, 1, 5]), mk_case(T, dt, fixed=[1, 4, 5]), mk_case(T, dt, et=7 * dt, interval=3),
+           mk_case(T, dt, st=4 * dt)]
+    return [[k, sws[i % len(sws)]] for i, k in enumerate(sorted(EXTRA_KINDS))]
 
 
 # ------------------------------------------------------------------------------------------- K
@@ -528,7 +603,7 @@ def run(ctx):
                            [mk_case(10, dt, off=True), False], [mk_case(10, dt, fixed=[]), True],    # never active
                            [mk_case(10, dt, fixed=[5, 1, 3]), False],       # written out of time order
                            [mk_case(10, dt, fixed=[2, 2, 4, 9, 4]), False]],  # repeated steps: one record each
-                  "seed": 5}
+                  "seed": 5, "extras": seed_extras(10, dt)}
         d = run_scene_case(ctx, sc)
         ctx.case(sample={"op": "scene", "scene": sc} if i == 0 else None, nontrivial=("scene", i), group="scene", T=T)
         if d:
